@@ -16,60 +16,7 @@ pub struct Scenario {
     pub pauses: Vec<u64>,
 }
 
-fn b64_variants(secret: &[u8]) -> Vec<Vec<u8>> {
-    use data_encoding::{BASE64, BASE64URL, BASE64URL_NOPAD, BASE64_NOPAD};
-    let mut v: Vec<Vec<u8>> = vec![];
-    for k in 0..3usize {
-        let mut buf = vec![0u8; k];
-        buf.extend_from_slice(secret);
-        for enc in [BASE64.encode(&buf), BASE64URL.encode(&buf), BASE64_NOPAD.encode(&buf), BASE64URL_NOPAD.encode(&buf)] {
-            let e = enc.trim_end_matches('=').as_bytes().to_vec();
-            let skip = if k == 0 { 0 } else { k + 1 };
-            let inner = e[skip..e.len() - 2].to_vec();
-            v.push(inner);
-        }
-    }
-    v
-}
-
-pub fn secret_patterns(seed: &[u8]) -> Vec<(String, Vec<u8>)> {
-    let h = digest::digest(&digest::SHA512, seed);
-    let h = h.as_ref();
-    let mut scalar = h[..32].to_vec();
-    scalar[0] &= 248;
-    scalar[31] &= 127;
-    scalar[31] |= 64;
-    let secrets: Vec<(&str, Vec<u8>)> = vec![
-        ("seed", seed.to_vec()),
-        ("scalar", scalar),
-        ("sha512lo", h[..32].to_vec()),
-        ("sha512hi", h[32..].to_vec()),
-    ];
-    let mut pats = vec![];
-    for (name, s) in secrets {
-        pats.push((format!("{}:raw", name), s.clone()));
-        let hx = hex(&s);
-        pats.push((format!("{}:hex", name), hx.clone().into_bytes()));
-        pats.push((format!("{}:HEX", name), hx.to_uppercase().into_bytes()));
-        for (i, b) in b64_variants(&s).into_iter().enumerate() {
-            pats.push((format!("{}:b64-{}", name, i), b));
-        }
-    }
-    pats
-}
-
-fn contains(hay: &[u8], needle: &[u8]) -> bool {
-    !needle.is_empty() && hay.len() >= needle.len() && hay.windows(needle.len()).any(|w| w == needle)
-}
-
-pub fn leak_scan(pats: &[(String, Vec<u8>)], hay: &[u8]) -> Option<String> {
-    for (name, p) in pats {
-        if contains(hay, p) {
-            return Some(name.clone());
-        }
-    }
-    None
-}
+pub use crate::wire::{leak_scan, secret_patterns, srv_of_seed, Gen};
 
 /// run a scenario on the real server and emit one `srv` case line
 pub fn run_scenario(out: &mut Out, sc: Scenario) {
@@ -192,131 +139,6 @@ pub fn run_scenario(out: &mut Out, sc: Scenario) {
 
 // ---------------------------------------------------------------------------------------------
 // generators
-
-pub fn srv_of_seed(seed: &[u8]) -> Vec<u8> {
-    // SRV = SHA-512(0xff || pk)[0..32]; pk via ed25519-dalek directly (not via roughenough)
-    use ed25519_dalek::SigningKey;
-    let sk = SigningKey::from_bytes(seed.try_into().unwrap());
-    let pk = sk.verifying_key().to_bytes();
-    let mut ctx = digest::Context::new(&digest::SHA512);
-    ctx.update(&[0xff]);
-    ctx.update(&pk);
-    ctx.finish().as_ref()[..32].to_vec()
-}
-
-pub struct Gen<'a> {
-    pub r: &'a mut Rng,
-    pub seed: Vec<u8>,
-    pub srv: Vec<u8>,
-}
-
-impl<'a> Gen<'a> {
-    pub fn new(r: &'a mut Rng) -> Self {
-        let seed = match r.below(8) {
-            // (seeds with long zero runs would make the C20 monitor fire on the Merkle zero pad node: a false alarm)
-            0 => (0..32).map(|i| (i * 7 + 3) as u8).collect(),
-            1 => vec![0xff; 32],
-            2 => (0..32).collect(),
-            _ => r.bytes(32),
-        };
-        let srv = srv_of_seed(&seed);
-        Gen { r, seed, srv }
-    }
-    pub fn valid_classic(&mut self) -> Vec<u8> {
-        let len = match self.r.below(4) { 0 => 1024, 1 => 1500, _ => 1024 + 4 * self.r.below(120) as usize };
-        let nonce = self.r.bytes(64);
-        classic_request(&nonce, len)
-    }
-    pub fn valid_ietf(&mut self) -> Vec<u8> {
-        let len = match self.r.below(4) { 0 => 1024, 1 => 1500, _ => 1024 + 4 * self.r.below(120) as usize };
-        let nonce = self.r.bytes(32);
-        let srv = self.srv.clone();
-        let with_srv = self.r.chance(1, 2);
-        ietf_request(&VER13, if with_srv { Some(&srv) } else { None }, &nonce, len)
-    }
-    pub fn valid_any(&mut self) -> Vec<u8> {
-        if self.r.chance(1, 2) { self.valid_classic() } else { self.valid_ietf() }
-    }
-    /// near-valid mutant or junk
-    pub fn invalid(&mut self) -> Vec<u8> {
-        match self.r.below(18) {
-            0 => vec![],
-            1 => { let n = self.r.below(64) as usize; self.r.bytes(n) }
-            2 => { let n = *self.r.pick(&[1023usize, 1024, 1500, 1501, 1499, 1025]); self.r.bytes(n) }
-            3 => { let n = *self.r.pick(&[4096usize, 16384, 65507, 2000]); self.r.bytes(n) }
-            4 => { let mut d = self.valid_classic(); d.truncate(1020); d }           // too short
-            5 => { let mut d = self.valid_classic(); d.extend(vec![0u8; 1504 - d.len().min(1504)]); d.extend([0u8; 4]); d } // too long
-            6 => { let n = self.r.bytes(64); classic_request(&n, 1000) }               // short but well-formed
-            7 => { // classic with wrong nonce length
-                let k = *self.r.pick(&[0usize, 4, 32, 60, 68, 128, 1008]);
-                let n = self.r.bytes(k);
-                classic_request(&n, 1024.max(16 + k))
-            }
-            8 => { // ietf with wrong nonce length
-                let k = *self.r.pick(&[0usize, 4, 28, 36, 64]);
-                let n = self.r.bytes(k);
-                ietf_request(&VER13, None, &n, 1024)
-            }
-            9 => { // frame length off by something
-                let mut d = self.valid_ietf();
-                let cur = u32::from_le_bytes([d[8], d[9], d[10], d[11]]);
-                let delta = *self.r.pick(&[1u32, 4, 0xffff_fffc, 12, 0xffff_fff4]);
-                d[8..12].copy_from_slice(&cur.wrapping_add(delta).to_le_bytes());
-                d
-            }
-            10 => { // unsupported version only
-                let n = self.r.bytes(32);
-                ietf_request(&[1, 0, 0, 0x80], None, &n, 1024)
-            }
-            11 => { // wrong SRV
-                let n = self.r.bytes(32);
-                let s = self.r.bytes(32);
-                ietf_request(&VER13, Some(&s), &n, 1024)
-            }
-            12 => { // no NONC at all (classic: only PAD)
-                enc_msg(&[(b"PAD\xff", vec![0u8; 1016])])
-            }
-            13 => { // bit flip in the header area of a valid request
-                let mut d = self.valid_any();
-                let i = self.r.below(40) as usize;
-                d[i] ^= 1 << self.r.below(8);
-                d
-            }
-            14 => { // magic only, then junk
-                let mut d = b"ROUGHTIM".to_vec();
-                d.extend(self.r.bytes(1024));
-                d
-            }
-            15 => { // classic message whose value offsets point past the end of the datagram (into whatever a
-                    // previous, larger datagram left in the receive buffer)
-                let total = *self.r.pick(&[1024usize, 1100, 1500]);
-                let mut d = vec![0u8; total];
-                let o1 = total as u32 + 4 * self.r.range(1, 40) as u32;
-                let o2 = o1 + 64;
-                d[0..4].copy_from_slice(&3u32.to_le_bytes());
-                d[4..8].copy_from_slice(&o1.to_le_bytes());
-                d[8..12].copy_from_slice(&o2.to_le_bytes());
-                d[12..16].copy_from_slice(b"SIG\0");
-                d[16..20].copy_from_slice(b"NONC");
-                d[20..24].copy_from_slice(b"PAD\xff");
-                d
-            }
-            16 => { // two-field classic message, PAD offset beyond the datagram
-                let total = 1024usize;
-                let mut d = self.r.bytes(total);
-                d[0..4].copy_from_slice(&2u32.to_le_bytes());
-                d[4..8].copy_from_slice(&((total as u32) + 64).to_le_bytes());
-                d[8..12].copy_from_slice(b"NONC");
-                d[12..16].copy_from_slice(b"PAD\xff");
-                d
-            }
-            _ => { // valid-looking request with the tags in wrong order
-                let n = self.r.bytes(64);
-                enc_msg(&[(b"PAD\xff", vec![0u8; 944]), (b"NONC", n)])
-            }
-        }
-    }
-}
 
 fn cfg_of(g: &mut Gen, batch: u8, fault: u8, level: &str) -> RigCfg {
     RigCfg { seed: g.seed.clone(), batch, fault, per_client: g.r.chance(1, 3), level: level.to_string(), status: None }
@@ -544,14 +366,27 @@ fn c02_cases(out: &mut Out, r: &mut Rng, thorough: bool) {
 /// C11: the midpoint is the clock reading taken when the batch is signed — also after idle periods
 /// and after bursts in which nothing was signed
 fn c11_cases(out: &mut Out, r: &mut Rng, thorough: bool) {
-    for k in 0..(if thorough { 24 } else { 8 }) {
+    for k in 0..(if thorough { 36 } else { 12 }) {
         let mut g = Gen::new(r);
         let batch = *g.r.pick(&[1u8, 2, 64]);
         let cfg = cfg_of(&mut g, batch, 0, "off");
         let junk = |g: &mut Gen, n: usize| -> Vec<(usize, Vec<u8>)> { (0..n).map(|_| (0usize, g.invalid())).collect() };
         let valid = |g: &mut Gen, n: usize| -> Vec<(usize, Vec<u8>)> { (0..n).map(|i| (1 + i % 3, g.valid_any())).collect() };
         // shapes: [valid] idle [valid]; [invalid only] idle [valid]; [valid] [invalid only] idle [valid] [valid]
-        let (bursts, pauses): (Vec<Vec<(usize, Vec<u8>)>>, Vec<u64>) = match k % 4 {
+        // retransmissions: the SAME datagram again and again at short intervals (each time a batch with
+        // the same Merkle root as the one before) — every reply must carry the time of ITS signing
+        let retrans = |g: &mut Gen, ietf: bool, n: usize, gap: u64| -> (Vec<Vec<(usize, Vec<u8>)>>, Vec<u64>) {
+            let q = if ietf { g.valid_ietf() } else { g.valid_classic() };
+            ((0..n).map(|_| vec![(1usize, q.clone())]).collect(), (0..n).map(|i| if i == 0 { 0 } else { gap }).collect())
+        };
+        let (bursts, pauses): (Vec<Vec<(usize, Vec<u8>)>>, Vec<u64>) = match k % 6 {
+            4 => retrans(&mut g, k % 12 == 4, 7, 300),
+            5 => {
+                // the same pair of requests (two clients) repeated, then once more after an idle period
+                let a = g.valid_any(); let b = g.valid_any();
+                let pair = vec![(1usize, a.clone()), (2usize, b.clone())];
+                (vec![pair.clone(), pair.clone(), pair.clone(), pair.clone(), pair], vec![0, 400, 400, 400, 1200])
+            }
             0 => (vec![valid(&mut g, 2), valid(&mut g, 3)], vec![0, 1300]),
             1 => (vec![junk(&mut g, 1), valid(&mut g, 2), valid(&mut g, 1)], vec![0, 2200, 0]),
             2 => (vec![valid(&mut g, 1), junk(&mut g, 3), valid(&mut g, 4), valid(&mut g, 1)], vec![0, 0, 1300, 1100]),
